@@ -152,6 +152,15 @@ def run(tier, replay=None):
         import glob
         hs = [[l for l in open(f).read().split("\n") if l.strip() and not l.startswith("#")] for f in sorted(glob.glob(os.path.join(common.VERIF, "corpus", PROP, "*.api")))]
         hs += [gen_history(rng, 40) for _ in range(50 if tier == "quick" else 900)]
+    # ---- directed case: the VGM dumper limits the chips to 2 while it is selected; the accepted count is in force again for the next emulator
+    # (the dumper prints a banner on stdout, so this history is read by its last observation only)
+    if not replay:
+        dh = ["new 44100", "openbankfile %s" % os.path.join(common.REPO, "fm_banks", "gm.wopn"), "numchips 4", "emu 7", "emu 0", "tell"]
+        dimpl, _ = common.run_impl("api", "\n".join(dh) + "\n", stateless=True, timeout=120)
+        last = [settings_of(l) for l in dimpl if l.startswith("ret=") and settings_of(l)]
+        if not last or last[-1].get("emu") != "0" or last[-1].get("nc") != "4" or last[-1].get("nco") != "4":
+            ctx.violate("monitor", "# numchips 4 was accepted; after a visit to the VGM dumper (emu 7) and back to emulator 0 the instance reports %s\n%s\n" % (
+                {f: last[-1].get(f) for f in ("emu", "nc", "nco")} if last else "nothing", "\n".join(dh)))
     ops = [o for h in hs for o in h]
     impl, _ = common.run_impl("api", "\n".join(ops) + "\n", stateless=True, timeout=1200)
     mops = [o for o in ops if o.split()[0] in MODEL_OPS]
